@@ -12,8 +12,16 @@ Strings of the Go side travel as hex of their bytes (`-` = empty).
   wif_enc <hexkey> <ver> <0|1>      -> <hexstr>|err ; wif_dec <hexstr> <ver> -> <hexkey> <0|1>|err
   f8str <dec> / f8parse <hexstr> / dec_to <dec> <p> / dec_from <hexstr> <p>
   u_decbe|u_decle <size> <hex> ; u_strbe|u_strle <hex> ; u_decstrbe|u_decstrle <size> <hexstr>
-  emit_int <dec> / emit_big <dec>   -> <hex>|err ; pushed <hex> -> <dec>|err
+  emit_int <dec> / emit_big <dec>   -> <hex>|err ; pushed <hex> -> <dec>|err ; int64of <hex> -> <dec>|err (GetInt64FromInstr)
+  emitbytes <hex>                   -> <hex>                     emit.Bytes
   msbuild <m> <hex of n*33 bytes>   -> <hex>|err ; msparse <hex> -> <m> <key,key,..>|no ; sigparse <hex> -> <hex>|no
+  msbuildk <m> <k,k,..>             -> <hex>|err   keys in INPUT order, each `inf` or hex of X|Y (64 bytes); the model sorts
+  pkcmp <k> <k>                     -> -1|0|1      (*PublicKey).Cmp
+  pubdec <r1|k1> <hex>              -> <X|Y hex>|err   (*PublicKey).DecodeBytes on secp256r1 / secp256k1
+  pubenc <k> <c|u>                  -> <hex>           Bytes() / UncompressedBytes()
+  sigjoin <r dec> <s dec>           -> <hex>           getSignatureSlice ; sigsplit <hex> -> <r> <s>|err  (Verify's split)
+  nep2enc <priv> <pass> <addr> <dk> <enc>   -> <hexstr>      NEP2Encrypt with the primitives' results supplied
+  nep2dec <str> <pass> <dk> <dec> <addr>    -> <priv>|err    NEP2Decrypt with the primitives' results supplied
 -/
 import NeoModel.Base.Proto
 import NeoModel.Base.Sha256
@@ -24,6 +32,10 @@ import NeoModel.Model.Codec.Base58
 import NeoModel.Model.Codec.Fixed
 import NeoModel.Model.Codec.Uint
 import NeoModel.Model.Codec.Script
+import NeoModel.Model.Codec.MsSort
+import NeoModel.Model.Codec.PubKey
+import NeoModel.Model.Codec.Nep2
+import NeoModel.Generated.CodecConsts
 open NeoModel NeoModel.Codec
 
 def H2 : Bytes → Bytes := Sha256.hash2
@@ -70,6 +82,23 @@ def withHex (h : String) (f : Bytes → String) : String :=
   match Hex.decode h with
   | some b => f b
   | none => "bad-op"
+
+def parseKey (w : String) : Option PubKey :=
+  if w == "inf" then some none
+  else match Hex.decode w with
+    | some b => if b.length == 64 then some (some (leVal (b.take 32).reverse, leVal (b.drop 32).reverse)) else none
+    | none => none
+
+def parseKeys (w : String) : Option (List PubKey) :=
+  if w == "-" then some [] else (w.splitOn ",").mapM parseKey
+
+open NeoModel.Generated in
+def curveByName (n : String) : Option CurveP :=
+  if n == "r1" then some (mkCurve CodecConsts.r1P CodecConsts.r1A CodecConsts.r1B)
+  else if n == "k1" then some (mkCurve CodecConsts.k1P CodecConsts.k1A CodecConsts.k1B)
+  else none
+
+def optBytes (w : String) : Option Bytes := Hex.decode w
 
 def step (s : Unit) (ws : List String) : Unit × String :=
   (s, match ws with
@@ -132,9 +161,41 @@ def step (s : Unit) (ws : List String) : Unit × String :=
     | some n => optHex (emitBigInt n)
     | none => "bad-op"
   | ["pushed", h] => withHex h fun b => optInt (pushedInt b)
+  | ["emitbytes", h] => withHex h fun b => Hex.encode (emitBytes b)
+  | ["int64of", h] => withHex h fun b => (match nextInstr b 0 with
+    | .ins op param _ next => if next == b.length && 0 < b.length then optInt (getInt64FromInstr op param) else "err"
+    | _ => "err")
   | ["msbuild", m, h] => withHex h fun b => match m.toInt? with
     | some m => optHex (createMultiSig m (chunks 33 b))
     | none => "bad-op"
+  | ["msbuildk", m, ks] => (match m.toInt?, parseKeys ks with
+    | some m, some ks => optHex (createMultiSigK m ks)
+    | _, _ => "bad-op")
+  | ["pkcmp", a, b] => (match parseKey a, parseKey b with
+    | some a, some b => (match pkCmp a b with | .lt => "-1" | .eq => "0" | .gt => "1")
+    | _, _ => "bad-op")
+  | ["pubdec", cn, h] => (match curveByName cn, Hex.decode h with
+    | some C, some b => (match decodePub C b with
+      | some (x, y) => Hex.encode (beBytes 32 x ++ beBytes 32 y)
+      | none => "err")
+    | _, _ => "bad-op")
+  | ["pubenc", k, f] => (match parseKey k with
+    | some k => Hex.encode (if f == "c" then pkBytes k else pkBytesU k)
+    | none => "bad-op")
+  | ["sigjoin", r, sg] => (match r.toNat?, sg.toNat? with
+    | some r, some sg => Hex.encode (sigJoin r sg)
+    | _, _ => "bad-op")
+  | ["sigsplit", h] => withHex h fun b => (match sigSplit b with
+    | some (r, sg) => s!"{r} {sg}"
+    | none => "err")
+  | ["nep2enc", pr, pw, ad, dk, en] => (match optBytes pr, optBytes pw, optBytes ad, optBytes dk, optBytes en with
+    | some pr, some pw, some ad, some dk, some en =>
+      Hex.encode (nep2Encrypt ⟨fun _ _ => dk, fun _ _ => en, fun _ _ => [], fun _ => ad⟩ H2 pr pw)
+    | _, _, _, _, _ => "bad-op")
+  | ["nep2dec", st, pw, dk, de, ad] => (match optBytes st, optBytes pw, optBytes dk, optBytes de, optBytes ad with
+    | some st, some pw, some dk, some de, some ad =>
+      optHex (nep2Decrypt ⟨fun _ _ => dk, fun _ _ => [], fun _ _ => de, fun _ => ad⟩ H2 st pw)
+    | _, _, _, _, _ => "bad-op")
   | ["msparse", h] => withHex h fun b => match parseMultiSig b with
     | some (m, ks) => s!"{m} {",".intercalate (ks.map Hex.encode)}"
     | none => "no"
